@@ -47,6 +47,17 @@ var vC17Programs = []struct {
 	// instances made after the redeclaration follow the new definition
 	{`(def d (Dog Name: "rover" Number: 9001)) (struct Dog [(field Name: string e:0) (field Number: int64 e:1) (field Extra: int64 e:2)]) (def d3 (Dog Name: "n" Number: 1 Extra: 9001)) (+ 0 d3.Extra)`, 1},
 	{`(def d (Dog Name: "rover" Number: 9001)) (struct Dog [(field Name: string e:0) (field Number: int64 e:1) (field Extra: int64 e:2)]) (hset d Extra: 4)`, -1},
+	// slice-typed and pointer-typed fields
+	{`(struct Crate [(field Tags: ([]string) e:0) (field Nums: ([]int64) e:1) (field Next: (* Crate) e:2)]) (def d (Dog Name: "rover" Number: 9001)) (def c (Crate Tags: ["a" "b"])) (hset c Tags: ["x"]) (+ 0 d.Number)`, 1},
+	{`(struct Crate [(field Tags: ([]string) e:0) (field Nums: ([]int64) e:1)]) (def d (Dog Name: "rover" Number: 9001)) (def c (Crate Tags: ["a"])) (hset c Tags: [1 2])`, -1},
+	{`(struct Crate [(field Tags: ([]string) e:0) (field Nums: ([]int64) e:1)]) (def d (Dog Name: "rover" Number: 9001)) (def c (Crate Tags: ["a"])) (hset c Tags: [nil 5])`, -1},
+	{`(struct Crate [(field Tags: ([]string) e:0) (field Nums: ([]int64) e:1)]) (def d (Dog Name: "rover" Number: 9001)) (def c (Crate Tags: ["a"])) (hset c Tags: [(list 1 2) "s"])`, -1},
+	{`(struct Crate [(field Tags: ([]string) e:0) (field Nums: ([]int64) e:1)]) (def d (Dog Name: "rover" Number: 9001)) (def c (Crate Tags: ["a"])) {c.Nums = ["s" 1]}`, -1},
+	{`(struct Crate [(field Tags: ([]string) e:0) (field Nums: ([]int64) e:1)]) (def d (Dog Name: "rover" Number: 9001)) (def c (Crate Tags: ["a"])) (hset c Tags: "notaslice")`, -1},
+	{`(struct Crate [(field Tags: ([]string) e:0) (field Nums: ([]int64) e:1)]) (def d (Dog Name: "rover" Number: 9001)) (def r (Crate Tags: [nil 5]))`, -2},
+	{`(struct Crate [(field Tags: ([]string) e:0) (field Next: (* Crate) e:1)]) (def d (Dog Name: "rover" Number: 9001)) (def c (Crate Tags: ["a"])) (hset c Next: d)`, -1},
+	{`(struct Crate [(field Tags: ([]string) e:0) (field Next: (* Crate) e:1)]) (def d (Dog Name: "rover" Number: 9001)) (def c (Crate Tags: ["a"])) (hset c Next: (& d))`, -1},
+	{`(struct Crate [(field Tags: ([]string) e:0) (field Next: (* Crate) e:1)]) (def d (Dog Name: "rover" Number: 9001)) (def c (Crate Tags: ["a"])) (def c2 (Crate Tags: [])) (hset c Next: (& c2)) (hset c Tags: []) (+ 0 d.Number)`, 1},
 	// nil is accepted where the language says so
 	{`(def d (Dog Name: "rover" Number: 9001)) (hset d Name: nil) (+ 0 d.Number)`, 1},
 }
